@@ -146,6 +146,22 @@ CLAIMED = {
        "(fake open(), fake objects); OS file semantics vs BytesIO are not modelled.",
   technique="Lean 4 proof (decision logic of the file-argument resolution) + cross-kind differential on the real code",
   ref="DESIGN.md §5 C17"),
+ "C12": dict(
+  text="Lean 4 theorems (Props/C12.lean, 39 theorems) over a model of every ID3 spec kind, of frame read/write and of the frame-flag handling, "
+       "instantiated on the frame table REGENERATED from mutagen/id3/_frames.py on every run (Generated/Id3Table.lean, 176 classes): "
+       "frame_roundtrip / frame_roundtrip_v23 - for every class of the generated table and all valid field values, readFrame(writeFrame vals) = vals "
+       "(v2.4 and v2.3 configuration), by induction over the spec list from read_write_spec (one lemma per spec kind: Latin-1/UTF-8/UTF-16 LE/BE "
+       "codecs with surrogates and BOM, terminated text, multi-value lists, sized integers, volume adjustment/peak, synchronized text, key events, "
+       "ASPI index, nested frames relative to the nested reader/writer); table_ok (decide +kernel over the generated table) establishes the "
+       "structural side condition (a rest-consuming spec is last, no later spec shadows encoding/N/b); flags_equiv_unsynch/_datalen/"
+       "_unsynch_datalen - re-framed input decodes like the plain frame. Partial: RVASpec (modelled and tied, instances only), zlib/encryption, "
+       "v2.2 upgrade, tag-level frame ordering and determine_bpi are decided on the real code by the harness with the independent decoder "
+       "harness/id3spec.py and by re-framing every generated frame.",
+  note="Trusted: Lean kernel; standard axioms; harness/extract_id3.py (introspection of Frames/Frames_2_2; refuses unknown spec classes or "
+       "changed read/write owners) and the correspondence of the hand-written spec-kind model with _specs.py, run on every generated frame "
+       "(about 54k model traces per quick run); floats never enter a theorem.",
+  technique="Lean 4 proof (per-spec-kind and per-frame round-trip by induction over the regenerated frame table) + model/implementation correspondence + independent ID3 decoder",
+  ref="DESIGN.md §5 C12"),
  "C13": dict(
   text="Lean 4 theorems (Props/C13.lean) over the model of the date logic of update_to_v23/update_to_v24: date_carried - for every year 1..9999, "
        "month, day, hour (incl. 0) and minute (incl. 0) the recording date is written to TYER (4 digits), TDAT (DDMM) and TIME (HHMM) with exactly "
